@@ -105,4 +105,69 @@ theorem dataSecLoop_pot (R : Nat) (cm : Bool) (iters F : Nat) (hR : iters ≤ R)
       simp only [hg, Bool.not_false, if_true]
       exact ⟨⟨s, 0, 0, steps⟩, rfl, Nat.le_refl _, by simp only []; omega⟩
 
+
+/-! ### GetKeyword -/
+
+theorem pot_putback (R : Nat) (s : IS) (c : Byte) : pot R (s.putback c) ≤ pot R s + 4 ∧ (s.putback c).m ≤ s.m + 1 ∧
+    (s.m = 0 → (s.putback c).m = 0) := by
+  have h1 := putback_m s c
+  refine ⟨?_, h1, fun h => putback_m_zero s c h⟩
+  by_cases hz : s.m = 0
+  · rw [pot_zero (putback_m_zero s c hz)]; omega
+  · by_cases hz2 : (s.putback c).m = 0
+    · rw [pot_zero hz2]; omega
+    · rw [pot_pos (by omega), pot_pos (by omega)]; omega
+
+def GetKwOk (R : Nat) (rec : IS → Byte → Nat → List Byte → Nat → Out (IS × List Byte × Nat)) (fuel : Nat) : Prop :=
+  ∀ (s : IS) (c : Byte) (sz : Nat) (acc : List Byte) (steps : Nat), s.m + 1 ≤ fuel →
+    ∃ s' acc' st, rec s c sz acc steps = .ok (s', acc', st) ∧ s'.m ≤ s.m + 1 ∧ (s.m = 0 → s'.m = 0 ∧ st = steps) ∧
+      st + pot R s' ≤ steps + pot R s + 4
+
+theorem getKwLoop_ok (R : Nat) (delims : List Byte) : ∀ fuel, GetKwOk R (getKwLoop delims fuel) fuel := by
+  intro fuel
+  induction fuel with
+  | zero => intro s c sz acc steps h; omega
+  | succ fuel ih =>
+    intro s c sz acc steps h
+    show ∃ s' acc' st, getKwStep (getKwLoop delims fuel) delims s c sz acc steps = _ ∧ _
+    unfold getKwStep
+    split
+    · obtain ⟨h1, h2, h3⟩ := pot_putback R s c
+      exact ⟨_, acc, steps, rfl, h2, fun hz => ⟨h3 hz, rfl⟩, by omega⟩
+    · rename_i hcond
+      have hg : s.good = true := by
+        simp at hcond
+        exact hcond.2
+      have hpos := good_m_pos hg
+      have hgm := get_m s
+      obtain ⟨s', acc', st, a, b, c0, d⟩ := ih (s.get).1 ((s.get).2.getD c) (sz + 1) (c :: acc) (steps + 1)
+        (by rcases hgm with hh | hh <;> omega)
+      refine ⟨s', acc', st, a, by rcases hgm with hh | hh <;> omega, by intro hz; omega, ?_⟩
+      rcases hgm with hh | hh
+      · have := pot_drop (R := R) hh (Nat.le_refl 1); omega
+      · obtain ⟨hz, hst⟩ := c0 hh
+        rw [pot_zero hz]
+        have := pot_ge (R := R) hpos
+        omega
+
+/-- `GetKeyword` is a stage with constant 1: the character that ends the keyword is put back -/
+theorem getKeyword_ok (R : Nat) (delims : List Byte) (F : Nat) (hF : 1 ≤ F) : StageOk R (getKeyword delims F) 1 (F - 1) := by
+  intro s hB
+  unfold getKeyword getKeywordFull
+  have hgm := get_m s
+  obtain ⟨s', acc', st, a, b, c0, d⟩ := getKwLoop_ok R delims F (s.get).1 ((s.get).2.getD 0) 1 [] 1
+    (by rcases hgm with hh | hh <;> omega)
+  rw [a]
+  refine ⟨⟨s', 0, acc'.length, st⟩, rfl, ?_, ?_⟩
+  · show s'.m ≤ s.m
+    rcases hgm with hh | hh
+    · omega
+    · have := (c0 hh).1; omega
+  · show st + pot R s' ≤ pot R s + 1
+    rcases hgm with hh | hh
+    · have := pot_drop (R := R) hh (Nat.le_refl 1); omega
+    · obtain ⟨hz, hst⟩ := c0 hh
+      rw [pot_zero hz]
+      omega
+
 end StepModel.P21Safe
